@@ -837,6 +837,16 @@ where
 #[derive(Copy, Clone)]
 pub struct Memoized<A> {
     pub(crate) parser: A,
+    // Identifies this parser in the memoization table: allocated when the parser is created, shared by its clones
+    pub(crate) id: usize,
+}
+
+/// Allocate a fresh identity for a memoized parser.
+#[cfg(feature = "memoization")]
+pub(crate) fn next_memo_id() -> usize {
+    use core::sync::atomic::{AtomicUsize, Ordering};
+    static NEXT_MEMO_ID: AtomicUsize = AtomicUsize::new(0);
+    NEXT_MEMO_ID.fetch_add(1, Ordering::Relaxed)
 }
 
 #[cfg(feature = "memoization")]
@@ -850,11 +860,7 @@ where
     #[inline(always)]
     fn go<M: Mode>(&self, inp: &mut InputRef<'src, '_, I, E>) -> PResult<M, O> {
         let before = inp.cursor();
-        // TODO: Don't use address, since this might not be constant?
-        let key = (
-            I::cursor_location(&before.inner),
-            &self.parser as *const _ as *const () as usize,
-        );
+        let key = (I::cursor_location(&before.inner), self.id);
 
         match inp.memos.entry(key) {
             hashbrown::hash_map::Entry::Occupied(o) => {
